@@ -132,3 +132,111 @@ Proof.
   split; [exact (fold_rel_track (cv_queue c) (cv_active c) a Ha)|].
   split; [exact (proj1 (fold_rel1_identity _ a))|exact (fold_rel1_releases _ a qd Hq Hp Hx Hm Hr)].
 Qed.
+
+(* ---- a release reaches every active chord, wherever it is stored ---- *)
+Lemma release_in_ach_remaining j a k :
+  In k (ac_remaining (release_in_ach j a)) -> In k (ac_remaining a) /\ (mem_n j (ac_keys a) = true -> k <> j).
+Proof.
+  unfold release_in_ach. destruct (mem_n j (ac_keys a)) eqn:Em; cbn [negb].
+  - cbn [ac_remaining]. intros H. apply filter_In in H. destruct H as [H1 H2]. split; [exact H1|].
+    intros _ E. subst k. rewrite N.eqb_refl in H2. discriminate.
+  - intros H. split; [exact H|]. discriminate.
+Qed.
+
+(* b is a later state of the active chord a: same chord, waiting for no more keys than before *)
+Definition shrinks (a b : active_chord) : Prop :=
+  ac_coord b = ac_coord a /\ ac_keys b = ac_keys a /\ (forall k, In k (ac_remaining b) -> In k (ac_remaining a)).
+(* ... and, if j is one of its keys, no longer waiting for j *)
+Definition no_longer_waits (j : N) (a b : active_chord) : Prop :=
+  shrinks a b /\ (mem_n j (ac_keys a) = true -> ~ In j (ac_remaining b)).
+
+Lemma shrinks_refl a : shrinks a a.
+Proof. repeat split; auto. Qed.
+Lemma shrinks_trans a b c : shrinks a b -> shrinks b c -> shrinks a c.
+Proof. intros (C1 & K1 & R1) (C2 & K2 & R2). repeat split; try congruence. intros k H. apply R1, R2, H. Qed.
+Lemma shrinks_release j a : shrinks a (release_in_ach j a).
+Proof.
+  destruct (release_keeps_identity j a) as (C & K & _ & _). split; [exact C|]. split; [exact K|].
+  intros k H. exact (proj1 (release_in_ach_remaining j a k H)).
+Qed.
+Lemma nlw_release j a : no_longer_waits j a (release_in_ach j a).
+Proof. split; [apply shrinks_release|]. intros Hm Hj. exact (proj2 (release_in_ach_remaining j a j Hj) Hm eq_refl). Qed.
+Lemma nlw_then_shrinks j a b c : no_longer_waits j a b -> shrinks b c -> no_longer_waits j a c.
+Proof. intros [S W] S2. split; [eapply shrinks_trans; eassumption|]. intros Hm Hj. apply (W Hm). destruct S2 as (_ & _ & R). apply R, Hj. Qed.
+Lemma shrinks_then_nlw j a b c : shrinks a b -> no_longer_waits j b c -> no_longer_waits j a c.
+Proof. intros S [S2 W]. split; [eapply shrinks_trans; eassumption|]. destruct S as (_ & K & _). rewrite <- K. exact W. Qed.
+
+Lemma F2_refl (l : list active_chord) : Forall2 shrinks l l.
+Proof. induction l; constructor; [apply shrinks_refl|assumption]. Qed.
+Lemma F2_map j l : Forall2 shrinks l (map (release_in_ach j) l).
+Proof. induction l; cbn [map]; constructor; [apply shrinks_release|assumption]. Qed.
+Lemma F2_map_nlw j l : Forall2 (no_longer_waits j) l (map (release_in_ach j) l).
+Proof. induction l; cbn [map]; constructor; [apply nlw_release|assumption]. Qed.
+Lemma F2_trans : forall l1 l2 l3, Forall2 shrinks l1 l2 -> Forall2 shrinks l2 l3 -> Forall2 shrinks l1 l3.
+Proof.
+  intros l1 l2 l3 H. revert l3. induction H as [|a b ta tb Hab _ IH]; intros l3 H2; inversion H2 as [|b' c tb' tc Hbc Ht2]; subst; constructor.
+  - eapply shrinks_trans; eassumption.
+  - apply IH. assumption.
+Qed.
+Lemma F2_nlw_shr j : forall l1 l2 l3, Forall2 (no_longer_waits j) l1 l2 -> Forall2 shrinks l2 l3 -> Forall2 (no_longer_waits j) l1 l3.
+Proof.
+  intros l1 l2 l3 H. revert l3. induction H as [|a b ta tb Hab _ IH]; intros l3 H2; inversion H2 as [|b' c tb' tc Hbc Ht2]; subst; constructor.
+  - eapply nlw_then_shrinks; eassumption.
+  - apply IH. assumption.
+Qed.
+Lemma F2_shr_nlw j : forall l1 l2 l3, Forall2 shrinks l1 l2 -> Forall2 (no_longer_waits j) l2 l3 -> Forall2 (no_longer_waits j) l1 l3.
+Proof.
+  intros l1 l2 l3 H. revert l3. induction H as [|a b ta tb Hab _ IH]; intros l3 H2; inversion H2 as [|b' c tb' tc Hbc Ht2]; subst; constructor.
+  - eapply shrinks_then_nlw; eassumption.
+  - apply IH. assumption.
+Qed.
+
+Lemma drain_releases_shrinks : forall q npress achs dq q' achs' dq',
+  drain_releases q npress achs dq = Ok (q', achs', dq') -> Forall2 shrinks achs achs'.
+Proof.
+  induction q as [|qd r IH]; intros npress achs dq q' achs' dq' E; cbn [drain_releases] in E.
+  - injection E as _ <- _. apply F2_refl.
+  - destruct (q_press qd).
+    + destruct (Nat.ltb npress SMOL_Q_LEN); [|discriminate].
+      destruct (drain_releases r (S npress) achs dq) as [[[k1 a1] d1]| |] eqn:E1; cbn [bind] in E; try discriminate.
+      injection E as _ <- _. exact (IH _ _ _ _ _ _ E1).
+    + destruct npress.
+      * eapply F2_trans; [apply F2_map|]. exact (IH _ _ _ _ _ _ E).
+      * destruct (drain_releases r (S npress) _ dq) as [[[k1 a1] d1]| |] eqn:E1; cbn [bind] in E; try discriminate.
+        injection E as _ <- _. eapply F2_trans; [apply F2_map|]. exact (IH _ _ _ _ _ _ E1).
+Qed.
+
+(* after the walk over a queue that contains the release of key j, the active chords are the same chords in the same order and none
+   of those that j belongs to still waits for j - wherever in the list it is stored *)
+Theorem release_reaches_every_active_chord : forall q npress achs dq q' achs' dq' qd,
+  drain_releases q npress achs dq = Ok (q', achs', dq') ->
+  In qd q -> q_press qd = false ->
+  Forall2 (no_longer_waits (snd (q_coord qd))) achs achs'.
+Proof.
+  induction q as [|q0 r IH]; intros npress achs dq q' achs' dq' qd E Hin Hrel; [destruct Hin|].
+  cbn [drain_releases] in E. destruct Hin as [->|Hin].
+  - rewrite Hrel in E. destruct npress.
+    + eapply F2_nlw_shr; [apply F2_map_nlw|]. exact (drain_releases_shrinks _ _ _ _ _ _ _ E).
+    + destruct (drain_releases r (S npress) _ dq) as [[[k1 a1] d1]| |] eqn:E1; cbn [bind] in E; try discriminate.
+      injection E as _ <- _. eapply F2_nlw_shr; [apply F2_map_nlw|]. exact (drain_releases_shrinks _ _ _ _ _ _ _ E1).
+  - destruct (q_press q0).
+    + destruct (Nat.ltb npress SMOL_Q_LEN); [|discriminate].
+      destruct (drain_releases r (S npress) achs dq) as [[[k1 a1] d1]| |] eqn:E1; cbn [bind] in E; try discriminate.
+      injection E as _ <- _. exact (IH _ _ _ _ _ _ _ E1 Hin Hrel).
+    + destruct npress.
+      * eapply F2_shr_nlw; [apply F2_map|]. exact (IH _ _ _ _ _ _ _ E Hin Hrel).
+      * destruct (drain_releases r (S npress) _ dq) as [[[k1 a1] d1]| |] eqn:E1; cbn [bind] in E; try discriminate.
+        injection E as _ <- _. eapply F2_shr_nlw; [apply F2_map|]. exact (IH _ _ _ _ _ _ _ E1 Hin Hrel).
+Qed.
+
+(* not vacuous: three active chords, the first and the third contain key 2; a press of key 9 and then the release of key 2 are
+   queued: after the walk neither of the two waits for key 2 any more, the middle one is untouched *)
+Definition ex_achs : list active_chord :=
+  [mkach 0 [1; 2] [1; 2] (KeyCode 30) AReleasable 0; mkach 1 [4; 5] [4; 5] (KeyCode 31) AReleasable 0;
+   mkach 2 [2; 3] [2; 3; 6] (KeyCode 32) AUnread 0].
+Definition ex_q : list queued :=
+  [{| q_press := true; q_coord := (0, 9); q_since := 1 |}; {| q_press := false; q_coord := (0, 2); q_since := 0 |}].
+Example release_reaches_not_vacuous :
+  exists q' achs' dq', drain_releases ex_q 0 ex_achs [] = Ok (q', achs', dq') /\
+    map ac_remaining achs' = [[1]; [4; 5]; [3]].
+Proof. do 3 eexists. split; [vm_compute; reflexivity|reflexivity]. Qed.
